@@ -258,6 +258,8 @@ theorem freshen_persists (cfg : Cfg) (reqH : Header) (key : Str) (stored : Entry
     (f : Freshness) (ccReq : Directives) (mv : Bool) (start t1 : Int) (r : Resp) (b : Bool) (tr : List Step) (res : Result)
     (h304 : r.status = 304) (hval : clientPreconditionForwarded reqH stored.resp.header = false) (hid : stored.id ≠ [])
     (hns : ccReq.noStore = false) (hns' : (parseCC r.header).noStore = false)
+    (hcs : canStoreResponse (respWith stored.resp (updateStoredHeaders (Header.del stored.resp.header sAge) r.header)) ccReq
+             (parseCC (updateStoredHeaders (Header.del stored.resp.header sAge) r.header)) = true)
     (hvary : joinWith [',', ' '] (Header.values (updateStoredHeaders (Header.del stored.resp.header sAge) r.header) sVary) =
              joinWith [',', ' '] (Header.values stored.resp.header sVary))
     (h : Run (handleValidation cfg sGET reqH key stored refs ri f ccReq mv start (.resp r t1 b) (fun r => .ret r)) tr res) :
@@ -270,7 +272,7 @@ theorem freshen_persists (cfg : Cfg) (reqH : Header) (key : Str) (stored : Entry
   have hne : stored.id.isEmpty = false := by cases hs : stored.id with
     | nil => exact absurd hs hid
     | cons c cs => rfl
-  simp only [hne, hns, hns', Bool.or_self, Bool.false_eq_true, ↓reduceIte, hvary, ne_eq, not_true_eq_false] at h
+  simp only [hne, hns, hns', hcs, Bool.not_true, Bool.or_self, Bool.false_eq_true, ↓reduceIte, hvary, ne_eq, not_true_eq_false] at h
   cases h with
   | setEntry ok h1 => cases h1; exact ⟨ok, rfl, rfl⟩
 
